@@ -20,6 +20,11 @@ def _timeout(signum, frame):
 
 
 def setup():
+    with common.build_lock():
+        return _setup()
+
+
+def _setup():
     from . import translate
     fails = translate.regenerate()
     for f in fails:
@@ -61,9 +66,10 @@ def main(argv=None):
 
     # 1. regenerate the translated tables from /repo's working tree
     from . import translate
-    gen_fail = translate.regenerate()
-    # 2./3. proofs + audit
-    lean = common.lean_check(mod.PROP_MODULE, thorough=ctx.thorough)
+    with common.build_lock():        # checks may run in parallel: regeneration + build + audit are serialised
+        gen_fail = translate.regenerate()
+        # 2./3. proofs + audit
+        lean = common.lean_check(mod.PROP_MODULE, thorough=ctx.thorough)
     for g in gen_fail:
         if any(g.startswith(t) for t in getattr(mod, 'GEN_TABLES', ())):
             lean.ok = False
